@@ -83,13 +83,40 @@ Theorem C13_stale_task_over_age_refuted :
 Proof. exact stale_task_over_age_witness. Qed.
 Print Assumptions C13_stale_task_over_age_refuted.
 
-(** With the candidate repair (fresh queues per worker) all of the above holds for EVERY script. *)
+(** With the repair (fresh queues per worker, /repo 1ba89d0) all of the above holds for EVERY script. *)
 Theorem C13_no_worker_left_with_fresh_queues : forall h c s, fresh_queues c = true ->
   exists vs s1, run_stopped h c s = (vs, Completed, s1)
     /\ Forall (fun w => alive w = false \/ (w_stat w = WIdle /\ term s1 = true)) (workers s1)
     /\ Forall (fun w => alive w = false) (workers (settle Completed s1)).
 Proof. intros h c s H. exact (no_worker_left h c s (or_intror H)). Qed.
 Print Assumptions C13_no_worker_left_with_fresh_queues.
+
+(** (wp-audit) The three theorems above that are stated for [clean_script] only hold, like the last one, for EVERY
+    script once every worker gets fresh queues ([fresh_queues c = true]: /repo since commit 1ba89d0, the
+    configuration the correspondence check runs with).  EqFacts proves them for [tame c s] = clean \/ fresh. *)
+Theorem C13_run_completes_with_fresh_queues : forall c s, fresh_queues c = true ->
+  exists vs s1, run_dedicated c s = (vs, Completed, s1) /\ clock s1 = total_cost c s
+                /\ total_cost c s <= length s * S (timeout c).
+Proof.
+  intros c s H. destruct (run_completes c s (or_intror H)) as (vs & s1 & A & B).
+  exists vs, s1. split; [exact A|]. split; [exact B|apply total_cost_bounded].
+Qed.
+Print Assumptions C13_run_completes_with_fresh_queues.
+
+Theorem C13_failure_then_fresh_worker_with_fresh_queues : forall c s1 l b s2,
+  fresh_queues c = true -> fate c b <> None ->
+  let st := state_after c (s1 ++ [(l, b)]) in
+  cur st = None /\ Forall (fun w => alive w = false) (workers st)
+  /\ forall x s3, s2 = x :: s3 ->
+       exists w, workers (state_after c (s1 ++ [(l, b); x])) = w :: workers st
+                 /\ (cleanb (snd x) = true -> w_served w = [fst x]).
+Proof. intros c s1 l b s2 H. exact (failure_then_fresh_worker c s1 l b s2 (or_intror H)). Qed.
+Print Assumptions C13_failure_then_fresh_worker_with_fresh_queues.
+
+Theorem C13_worker_age_bounded_with_fresh_queues : forall c s, fresh_queues c = true ->
+  Forall (fun w => length (w_served w) <= Nat.max 1 (rate c)) (workers (state_after c s)).
+Proof. intros c s H. exact (worker_age_bounded c s (or_intror H)). Qed.
+Print Assumptions C13_worker_age_bounded_with_fresh_queues.
 
 (** non-vacuity: the demo script (hangs and exits first / consecutive / on recycle boundaries at rate 2) is clean,
     completes in the computed time, and a fault position satisfies the hypotheses of the fresh-worker theorem *)
@@ -99,3 +126,31 @@ Example C13_demo_duration : total_cost demo_cfg demo_script = 13.
 Proof. reflexivity. Qed.
 Example C13_demo_fault : fate demo_cfg BHangs <> None /\ fate demo_cfg (BSlow 4) <> None /\ fate demo_cfg (BSlow 3) = None.
 Proof. repeat split; discriminate. Qed.
+
+(** ---- non-vacuity per theorem (wp-audit) ---- *)
+(** C13_failure_then_fresh_worker: both premises for ONE decomposition of the demo script (a hang at position 2,
+    something after it), and what the conclusion says there is observable *)
+Example C13_failure_then_fresh_worker_nonvacuous :
+  let s1 := [(1, BEqual)] in
+  let s2 := skipn 2 demo_script in
+  demo_script = s1 ++ (2, BHangs) :: s2 /\ clean_script (s1 ++ (2, BHangs) :: s2) /\ fate demo_cfg BHangs <> None /\
+  (exists x s3, s2 = x :: s3 /\ cleanb (snd x) = true) /\
+  cur (state_after demo_cfg (s1 ++ [(2, BHangs)])) = None /\
+  length (workers (state_after demo_cfg (s1 ++ [(2, BHangs)]))) = 1.
+Proof. repeat split; try discriminate. do 2 eexists. split; reflexivity. Qed.
+
+(** C13_worker_age_bounded / C13_no_worker_left on the demo script: workers were created and recycled *)
+Example C13_demo_workers :
+  length (workers (state_after demo_cfg demo_script)) = 7 /\
+  (exists vs s1, run_stopped (ClosedAfter 4) demo_cfg demo_script = (vs, Completed, s1) /\ length vs = 4 /\
+                 length (workers s1) = 3).
+Proof. split; [reflexivity|]. do 2 eexists. vm_compute. repeat split. Qed.
+
+(** C13_no_worker_left_with_fresh_queues: the repaired configuration on a script that is NOT clean *)
+Example C13_fresh_queues_nonvacuous :
+  let c := Cfg 1 2 false true in
+  let s := [(1, BAnswersLate); (2, BHangs); (3, BEqual)] in
+  fresh_queues c = true /\ forallb (fun x => cleanb (snd x)) s = false /\
+  exists vs s1, run_stopped Full c s = (vs, Completed, s1) /\ length vs = 3 /\
+                forallb (fun w => negb (alive w)) (workers (settle Completed s1)) = true.
+Proof. repeat split. do 2 eexists. vm_compute. repeat split. Qed.
